@@ -315,6 +315,49 @@ func concBind(rep *concReport, goroutines, iters int) {
 	rep.add("bind", fin && bad == 0, "goroutines=%d binds=%d wrong=%d finished_without_deadlock=%v %s", goroutines, goroutines*iters, bad, fin, d)
 }
 
+// concBindFailing: only failing Binds of longer chains (the capture and the generation of the
+// reproduce case take longer, the captures overlap more)
+func concBindFailing(rep *concReport, goroutines, iters int) {
+	var bad int64
+	var detail atomic.Value
+	fin := parallel(goroutines, 60*time.Second, func(g int) {
+		for i := 0; i < iters; i++ {
+			var inv func() T1
+			mark := fmt.Sprintf("MARK-g%d-i%d-", g, i)
+			err := nject.Sequence("bad",
+				nject.Provide(mark+"a", func(a T0) T1 { return T1{Tag: a.Tag} }),
+				nject.Provide(mark+"b", func(b T1) T2 { return T2{Tag: b.Tag} }),
+				nject.Provide(mark+"c", func(inner func(T3) T1, c T2) T1 { return inner(T3{Tag: c.Tag}) }),
+				nject.Provide(mark+"d", func(d T3) T4 { return T4{Tag: d.Tag} }),
+				nject.Provide(mark+"e", func(e T4, d T3) T5 { return T5{Tag: e.Tag} }),
+				nject.Provide(mark+"final", func(b T1, f T5) T1 { return b })).Bind(&inv, nil)
+			if err == nil {
+				atomic.AddInt64(&bad, 1)
+				detail.Store("bad chain bound")
+				continue
+			}
+			d := nject.DetailedError(err)
+			trace := d
+			if k := strings.Index(d, "func TestRegression"); k >= 0 {
+				trace = d[:k]
+			}
+			if !strings.Contains(trace, mark) {
+				atomic.AddInt64(&bad, 1)
+				detail.Store("DetailedError trace does not mention this Bind's own providers (" + mark + ")")
+			}
+			for _, m := range markRe.FindAllString(trace, -1) {
+				if m != mark {
+					atomic.AddInt64(&bad, 1)
+					detail.Store("DetailedError trace of " + mark + " mentions another Bind's provider " + m)
+					break
+				}
+			}
+		}
+	})
+	d, _ := detail.Load().(string)
+	rep.add("bind-failing", fin && bad == 0, "goroutines=%d binds=%d wrong=%d finished_without_deadlock=%v %s", goroutines, goroutines*iters, bad, fin, d)
+}
+
 // ---- C09: key distinctness (sequential)
 
 func memoKeys(rep *concReport) {
@@ -358,6 +401,7 @@ func runConc(seed int64, rounds int) []string {
 		concBind(rep, 2+g/2, 3+rng.Intn(6))
 		if r%3 == 0 {
 			concBind(rep, 8, 36) // enough overlapping failing Binds to expose cross-talk between captures
+			concBindFailing(rep, 12, 40)
 		}
 	}
 	return rep.lines
